@@ -90,8 +90,8 @@ theorem C19_lexed_tokens_self_lexing (s : List Nat) (ts : List Tok) (h : lex s =
   lexLoop_tokens_selfLexing _ s true false ts h
 
 /-- non-vacuity: a text with every token class -/
-example : ∃ ts, lex [120, 43, 43, 49, 46, 101, 43, 32, 76, 34, 115, 34, 39, 99, 39, 10] = .ok ts ∧ ts.length = 5 :=
-  ⟨_, by decide, rfl⟩
+example : spellings (lex [120, 43, 43, 49, 46, 101, 43, 32, 76, 34, 115, 34, 39, 99, 39, 10]) =
+    .ok [[120], [43, 43], [49, 46, 101, 43], [76, 34, 115, 34], [39, 99, 39]] := by decide
 
 /-- **C19 (the model's loop bound is sufficient).**  `lex` never reports exhausted fuel: every iteration of the scanning
     loop consumes input, so `length + 1` iterations suffice for every text. -/
